@@ -7,8 +7,8 @@ class C07(Property):
     pid = "C07"
     quick_n = 3000
     thorough_n = 120000
-    partial = ["C07_many_order is decided for alternatives that are single leaves (flags/arguments); groups as alternatives "
-               "are covered by the differential run only"]
+    partial = ["C07_many_order (collected values follow command-line order) is decided by the oracle for leaf and group "
+               "alternatives and by the differential run; the theorems are about the decision rule of one choice"]
 
     def gen_def(self, rng):
         """A choice over 2..4 leaf alternatives (req_flag with distinct values / argument), wrapped bare/optional/many/some,
